@@ -51,10 +51,11 @@ CONSTANTS Gains,       \* set of Rat: alphabet of channel power gains
           Lens,        \* set of vector lengths
           Powers, Noises, Energies,   \* sets of Rat (all > 0)
           Dev,         \* [MuIgnoresEs, SpreadOverAll, AscendingSort, NoUnsort, StopEarly, EsDroppedInLoop,
-                       \*  AbsGainFloor, SortOrderCached : BOOLEAN]
+                       \*  AbsGainFloor, SortOrderCached, TinyLevelUniform : BOOLEAN]
           Opt          \* [AllTieBreaks, DropOnTie, PermAll, Reuse : BOOLEAN, GridN, ExN : Nat, ExAMax : Rat,
                        \*  DeadGains : set of Rat, DeadCount : up to that many of them are inserted by DeadChannelLaw
                        \*  while the vector stays within length DeadMaxLen <= 4,
+                       \*  LiveGains : set of Rat, LiveMaxLen (LiveChannelLaw), TinyLevel : Rat (Dev.TinyLevelUniform),
                        \*  Reps : set of replication factors, RepMaxLen <= 4 (ReplicationLaw),
                        \*  Scales : set of Rat (factors k of the scaling laws), GainFloor : Rat (Dev.AbsGainFloor),
                        \*  OptAMax : Seq(Rat)]  OptAMax[n] bounds a_i = g_i Es/N0 for which `Optimal` is
@@ -133,6 +134,9 @@ SpreadOp(c, q, k) == LET d == QDivInt(QSub(c.p, QSum(q)), k) IN [i \in 1..Len(q)
 UnsortOp(o, a, n) == IF Dev.NoUnsort THEN [i \in 1..n |-> IF i <= Len(a) THEN a[i] ELSE RZero]
                      ELSE [i \in 1..n |-> IF \E k \in 1..Len(a) : o[k] = i
                                           THEN a[CHOOSE k \in 1..Len(a) : o[k] = i] ELSE RZero]
+\* a regression: when some vessel bottom is "too small to compute" the power is split equally
+Fallback(c, v) == IF Dev.TinyLevelUniform /\ \E i \in Idx(c) : QLt(Bottom(c, c.g[i]), Opt.TinyLevel)
+                  THEN [i \in Idx(c) |-> QDivInt(c.p, N(c))] ELSE v
 MuWithEs(c, s, a) == QAdd(a[1], Bottom(c, s[1]))
 MuNoEs(c, s, a)   == QAdd(a[1], RDiv(c.n0, s[1]))
 MuOp(c, s, a)     == IF Dev.MuIgnoresEs THEN MuNoEs(c, s, a) ELSE MuWithEs(c, s, a)
@@ -181,7 +185,7 @@ Spread == /\ pc = "loop"
           /\ UNCHANGED <<inp, ord, gs, rem, lvl, ps, pw, mu>>
 
 Unsort == /\ pc = "unsort"
-          /\ pw' = UnsortOp(ord, aux, N(inp))
+          /\ pw' = Fallback(inp, UnsortOp(ord, aux, N(inp)))
           /\ pc' = "mu"
           /\ UNCHANGED <<inp, ord, gs, rem, lvl, ps, aux, mu>>
 
@@ -210,7 +214,7 @@ DropCount(c, s, r) == IF NeedDrop(c, PsAt(c, s, r), r) THEN DropCount(c, s, r + 
 Run(c, o) == LET s == [k \in Idx(c) |-> Seen(c.g[o[k]])]
                  r == DropCount(c, s, 0)
                  a == SpreadOp(c, PsAt(c, s, r), IF Dev.SpreadOverAll THEN N(c) ELSE N(c) - r)
-             IN  [pw |-> UnsortOp(o, a, N(c)), mu |-> MuOp(c, s, a), rem |-> r]
+             IN  [pw |-> Fallback(c, UnsortOp(o, a, N(c))), mu |-> MuOp(c, s, a), rem |-> r]
 
 (* ================================ Part 3: the property ==================================== *)
 Done == pc = "done"
@@ -281,6 +285,21 @@ DeadChannelLaw == Done => \A ds \in DeadSeqs :
                        \A k \in 0..N(inp) :
                           LET r == RunOf([inp EXCEPT !.g = Inserted(inp.g, k, ds)])
                           IN  r.pw = Inserted(pw, k, [j \in 1..Len(ds) |-> RZero]) /\ r.mu = mu
+
+\* LIVE-CHANNEL LAW.  Add a channel whose vessel bottom b is below the water level mu and raise the total power by
+\* mu - b: at the SAME level the new channel takes mu - b and every other channel what it had, together
+\* P + (mu - b): KKT holds, so level and old powers are unchanged.  With b -> 0 this is "an arbitrarily strong
+\* channel joins and brings its own power mu".  The harness uses it, combined with the scaling laws, for gains /
+\* noise at the ends of the floating-point range (b = N0/(Es g) a subnormal number: gain 1.5e308, or gain 1e160
+\* with noise 1e-150) - the expected values stay those of the moderate-scale case.
+LiveChannelLaw == Done => \A d \in Opt.LiveGains :
+                    (N(inp) + 1 <= Opt.LiveMaxLen /\ QLt(Bottom(inp, d), mu)) =>
+                       \A k \in 0..N(inp) :
+                          LET own == QSub(mu, Bottom(inp, d))
+                              c2  == [inp EXCEPT !.g = Inserted(inp.g, k, <<d>>), !.p = QAdd(inp.p, own)]
+                              r   == RunOf(c2)
+                          IN  /\ r.pw = Inserted(pw, k, <<own>>) /\ r.mu = mu
+                              /\ KktOf(c2, Inserted(pw, k, <<own>>), mu)
 
 \* REPLICATION LAW.  Let g^m be g repeated m times (blocked: g1 g1 .. g2 g2 .., or tiled: g1 g2 .. g1 g2 ..) and
 \* the total power m P.  At the level mu of the original problem every copy of channel i takes max(0, mu - b_i),
